@@ -669,4 +669,129 @@ theorem shallowMain_good {cm : Bool} {ig : List String} {pp sp : Path} {p s : T}
     fun kv hkv => by simp [pairMap] at hkv,
     fun k hk hn => by rcases hne k with h' | h'; exact absurd hk h'; exact absurd hn h'⟩
 
+theorem identField_name {p : T} (h : p.kind = "Name") : identField p.kind = some "id" := by
+  simp [identField, h]
+theorem identField_arg {p : T} (h : p.kind = "arg") : identField p.kind = some "arg" := by
+  simp [identField, h]
+theorem identField_attr {p : T} (h : p.kind = "Attribute") : identField p.kind = some "attr" := by
+  simp [identField, h]
+
+theorem role_not_exp_of_kind {p : T} (h1 : p.kind ≠ "Name") (h2 : p.kind ≠ "Expr") (k : String) :
+    role p ≠ .expPh k := by
+  simp only [role, h1, h2, if_false]
+  split
+  · simp
+  · split
+    · split <;> simp
+    · split <;> simp
+
+theorem symbolHandler_good {cm : Bool} {idVal : String} {pp sp : Path} {p s : T} {b : AstMap}
+    (hk : (p.kind = "Name" ∧ idVal = "id") ∨ (p.kind = "arg" ∧ idVal = "arg") ∨
+          (p.kind = "Attribute" ∧ idVal = "attr" ∧ s.kind = "Attribute"))
+    (h : symbolHandler cm idVal pp p sp s = some b) : ShallowGood b cm pp p sp s := by
+  have hf : identField p.kind = some idVal := by
+    rcases hk with ⟨h1, h2⟩ | ⟨h1, h2⟩ | ⟨h1, h2, _⟩
+    · rw [h2]; exact identField_name h1
+    · rw [h2]; exact identField_arg h1
+    · rw [h2]; exact identField_attr h1
+  -- the fall-back to shallow_match_main
+  have hmain : ∀ (hc : nameClass (p.strAttr idVal) ≠ .exp ∨ idVal ≠ "id"),
+      shallowMain cm ["ctx"] pp p sp s = some b → ShallowGood b cm pp p sp s := by
+    intro hc hm
+    refine shallowMain_good ctx_structural ?_ hm
+    intro k
+    rcases hk with ⟨h1, h2⟩ | ⟨h1, _⟩ | ⟨h1, _, _⟩
+    · left
+      rcases hc with hc | hc
+      · subst h2
+        simp only [role, h1]
+        simp only [show ("Name" : String) ≠ "Pass" from by decide, if_false, if_true]
+        cases hn : nameClass (p.strAttr "id") <;> simp_all
+      · exact absurd h2 hc
+    · right; rw [h1]; decide
+    · right; rw [h1]; decide
+  simp only [symbolHandler] at h
+  cases hc : nameClass (p.strAttr idVal) with
+  | var =>
+    simp only [hc] at h
+    split at h
+    · rename_i hcond
+      simp only [Bool.and_eq_true, decide_eq_true_eq] at hcond
+      have hnode : ∀ x : Bind, x.key = p.strAttr idVal → x.id = s.strAttr idVal →
+          ShallowGood ((pairMap pp sp).addBind x) cm pp p sp s := by
+        intro x hx1 hx2
+        refine ⟨rfl, confInv_addBind (confInv_pairMap _ _) _, pairMap_addBind_conflicts _ _ _, Or.inr hcond.1, ?_, ?_, ?_⟩
+        · intro _
+          refine nodeOk_of_bind hcond.2.symm hf hc ?_
+          rw [← hx1, ← hx2]; exact hasBind_addBind_self _ _
+        · intro kv hkv; simp [pairMap] at hkv
+        · intro k hr hn
+          exfalso
+          rcases hk with ⟨h1, h2⟩ | ⟨h1, _⟩ | ⟨h1, _, _⟩
+          · subst h2
+            simp only [role, h1] at hr
+            simp only [show ("Name" : String) ≠ "Pass" from by decide, if_false, if_true, hc] at hr
+            cases hr
+          · rw [h1] at hn; revert hn; decide
+          · rw [h1] at hn; revert hn; decide
+      split at h
+      · cases h; exact hnode _ rfl rfl
+      · cases h; exact hnode _ rfl rfl
+    · exact hmain (Or.inl (by rw [hc]; simp)) h
+  | exp =>
+    simp only [hc] at h
+    split at h
+    · rename_i hcond
+      simp only [Bool.and_eq_true, decide_eq_true_eq] at hcond
+      cases h
+      have hid := hcond.2
+      subst hid
+      have hkn : p.kind = "Name" := by
+        rcases hk with ⟨h1, _⟩ | ⟨_, h2⟩ | ⟨_, h2, _⟩
+        · exact h1
+        · exact absurd h2 (by decide)
+        · exact absurd h2 (by decide)
+      have hr := role_ne_concrete_of_name_exp hkn hc
+      refine ⟨rfl, confInv_of_no_binds rfl rfl, rfl, Or.inr hcond.1, ?_, ?_, ?_⟩
+      · intro hr'; rw [hr] at hr'; cases hr'
+      · intro kv hkv
+        simp only [pairMap, List.mem_singleton] at hkv
+        subst hkv
+        exact ⟨hr, rfl, hkn⟩
+      · intro k hr' _
+        rw [hr] at hr'
+        cases hr'
+        simp [pairMap, dictGet]
+    · rename_i hcond
+      by_cases hid : idVal = "id"
+      · -- then metas do not match, so shallow_match_main fails too
+        exfalso
+        obtain ⟨_, hb⟩ := shallowMain_some h
+        obtain ⟨_, h2, _⟩ := shallowMainB_spec ctx_structural hb
+        simp only [Bool.and_eq_true, decide_eq_true_eq, not_and] at hcond
+        exact hcond h2 hid
+      · exact hmain (Or.inr hid) h
+  | wild =>
+    simp only [hc] at h
+    split at h
+    · rename_i hcond
+      cases h
+      refine ⟨rfl, confInv_pairMap _ _, rfl, Or.inr hcond, ?_, ?_, ?_⟩
+      · intro hr
+        rcases hk with ⟨h1, h2⟩ | ⟨h1, h2⟩ | ⟨h1, h2, h3⟩
+        · subst h2; rw [role_of_name_wild h1 hc] at hr; cases hr
+        · subst h2; rw [role_of_arg_wild h1 hc] at hr; cases hr
+        · exact nodeOk_of_wild (by rw [h1, h3]) hf hc
+      · intro kv hkv; simp [pairMap] at hkv
+      · intro k hr hn
+        exfalso
+        rcases hk with ⟨h1, h2⟩ | ⟨h1, _⟩ | ⟨h1, _, _⟩
+        · subst h2; rw [role_of_name_wild h1 hc] at hr; cases hr
+        · rw [h1] at hn; revert hn; decide
+        · rw [h1] at hn; revert hn; decide
+    · exact hmain (Or.inl (by rw [hc]; simp)) h
+  | plain =>
+    simp only [hc] at h
+    exact hmain (Or.inl (by rw [hc]; simp)) h
+
 end Pedal.Cait
